@@ -340,6 +340,8 @@ pub struct Ctx {
     pub cli_plain: Option<PathBuf>,
     pub shim: Option<PathBuf>,
     pub fuzz_dir: Option<PathBuf>,
+    /// proptest shrink budget (lower it for sub-checks whose cases cost a process spawn)
+    pub shrink_iters: u32,
 }
 
 static PRINT_LOCK: Mutex<()> = Mutex::new(());
@@ -368,6 +370,7 @@ impl Ctx {
             cli_plain: None,
             shim: None,
             fuzz_dir: None,
+            shrink_iters: 2000,
         }
     }
 
@@ -475,6 +478,7 @@ impl Ctx {
             .map(|k| k.key.clone())
             .collect();
         let shards = if cases < 64 { 1 } else { SHARDS };
+        let shrink_iters = self.shrink_iters;
         let results: Vec<(Classifier, Option<(S::Value, Failure)>, Option<String>)> = std::thread::scope(|sc| {
             let mut hs = vec![];
             for shard in 0..shards {
@@ -487,7 +491,7 @@ impl Ctx {
                         failure_persistence: None,
                         rng_seed: RngSeed::Fixed(seed),
                         rng_algorithm: RngAlgorithm::ChaCha,
-                        max_shrink_iters: 2000,
+                        max_shrink_iters: shrink_iters,
                         max_global_rejects: 100_000,
                         ..Config::default()
                     };
